@@ -616,6 +616,47 @@ def check_backtrack(ctx, ex, p, drv, rv, st):
         ctx.violation(rule, "collect", hf.loc(), "the visited segment starts are neither all collected (and the artificial 0 dropped afterwards) nor collected exactly when the chain continues", found=[(a_, g_) for a_, g_, _, _ in pinfo], expected="one unconditional append, or an append guarded by prev[i] - 1 >= 0")
 
 
+def _check_reported_scores(ctx, p, pred):
+    """the prefix scores the detector reports (self.scores) are the driver's optimal costs: entries t >= min_segment_length - 1
+    (prefixes X[0:t+1] of at least the minimum length) reach the reported series as the driver returned them"""
+    rule = "C02.f BACKTRACK"
+    from ..values import SliceV, NoneV
+
+    sts = [e for e in p.events if e.kind == "attr_store" and e.data["attr"] == "scores" and isinstance(e.data["obj"], ObjV)]
+    if not sts:
+        ctx.undecided(rule, "prefix-scores", pred.loc(), "predict stores no `scores` attribute: where the prefix scores are reported is not recognised")
+        return
+    m = sym("min_segment_length")
+    for e in sts[-1:]:
+        v = e.data["value"]
+        root = v
+        while isinstance(root, Num) and isinstance(root.meta.get("alias_of"), Num):
+            root = root.meta["alias_of"]
+        a = single_atom(root.nf) if isinstance(root, Num) and root.nf is not None else None
+        if not (a is not None and a.kind == "app" and a.args[0] == "driver_out" and a.args[2] == 0):
+            ctx.violation(rule, "prefix-scores", e.loc(), "the reported prefix scores are not the optimal costs the driver returned", found=valkey(v)[:120], expected="driver output #0")
+            continue
+        arr = v.arr if v.arr is not None else root.arr
+        bad, unk = [], []
+        for sv in (arr.stores if arr is not None else []):
+            idx = sv.data["index"]
+            hi = None
+            if len(idx) == 1 and isinstance(idx[0], SliceV) and isinstance(idx[0].lo, (NoneV, Num)) and isinstance(idx[0].hi, Num) and isinstance(idx[0].step, NoneV) and idx[0].hi.nf is not None:
+                lo = idx[0].lo
+                if isinstance(lo, NoneV) or (lo.nf is not None and lo.nf.as_const() is not None and lo.nf.as_const() >= 0):
+                    hi = idx[0].hi.nf
+            d = (hi - (m - 1)).as_const() if hi is not None else None
+            if d is not None and d <= 0:
+                continue  # only placeholders of prefixes shorter than the minimum length are overwritten
+            (bad if d is not None else unk).append(sv)
+        for sv in bad:
+            ctx.violation(rule, "prefix-scores", sv.loc(), "predict overwrites the score of a prefix of admissible length (entry t belongs to the prefix X[0:t+1] of length t + 1: entries from min_segment_length - 1 on are optimal costs)", found=f"store at [{','.join(valkey(i) for i in sv.data['index'])}]", expected="stores confined to [: min_segment_length - 1]")
+        for sv in unk:
+            ctx.undecided(rule, "prefix-scores", sv.loc(), "a store into the reported scores whose extent is not decided", found=f"store at [{','.join(valkey(i) for i in sv.data['index'])}]")
+        if not bad and not unk:
+            ctx.holds(rule, "prefix-scores", e.loc(), "the reported prefix scores are the driver's optimal costs, unmodified from entry min_segment_length - 1 on", found=valkey(v)[:80])
+
+
 def check_predict_wiring(ctx, cls, pred, call, drv):
     """the driver's changepoints reach the formatter unmodified"""
     rule = "C02.f BACKTRACK"
@@ -649,6 +690,7 @@ def check_predict_wiring(ctx, cls, pred, call, drv):
             if a is not None and a.kind == "app" and a.args[0] == "driver_out" and a.args[2] == 1:
                 ok = True
         ctx.check(ok, rule, "wiring", pred.loc(), "the changepoints returned by the driver are passed to the formatter unmodified", found=found, expected="driver output #1")
+        _check_reported_scores(ctx, p, pred)
         # argument binding at the call site: penalty_ and min_segment_length
         calls = [e for e in p.events if e.kind == "driver_call"]
         if calls:
